@@ -140,7 +140,9 @@ func VerifC03_Step() {
 	ti.cts, ti.lts = cts, lts
 	n := vChoice("nmsgs", M+1)
 	pack, srcs := c03SourcePack("pack", 100, rSrcP+"_100v0", n)
-	out := env.h.handlePack(false, pack, "task")
+	// the pack was read by this handler's own stream, or by another handler that forwarded it
+	// here because this handler owns the downstream channel of the shard
+	out := env.h.handlePack(vBool("pack.forwardedByAnotherHandler"), pack, "task")
 	vAssert(out != nil, "C03.no-error-on-a-well-formed-pack")
 	if out == nil {
 		return
@@ -186,7 +188,8 @@ func VerifC03_History() {
 		}
 		n := vChoice("nmsgs", M+1)
 		pack, srcs := c03SourcePack("pack", coll, vch, n)
-		out := env.h.handlePack(false, pack, "task")
+		// stream 1 reaches this handler through the forward hand-over of another handler
+		out := env.h.handlePack(stream == 1 && vParam("FWD", 1) == 1, pack, "task")
 		vAssert(out != nil, "C03.no-error-on-a-well-formed-pack")
 		if out == nil || out == api.EmptyMsgPack {
 			continue
